@@ -102,7 +102,7 @@ def check(ctx):
             if m:
                 n = int(m.group(1))
                 bad = rows[n - 1]
-                held = [e for e in rows[:n - 1] if e["g"] == bad["g"] and e["ev"].endswith(("Locked", "Done"))]
+                held = [e for e in rows[:n - 1] if e["g"] == bad["g"] and e["ev"].endswith(("Locked", "Out"))]
                 nested = bad["ev"].endswith("Locked") and held and held[-1]["ev"].endswith("Locked")
                 what = ("goroutine %s enters shard %s while it is still inside shard %s (two shard locks at a time: with a writer pending on each, "
                         "two such goroutines deadlock - CacheLockOrder.tla)" % (bad["g"], bad["s"], held[-1]["s"]) if nested else
